@@ -258,6 +258,18 @@ class Functor(pg_object.Object, utils.Functor):
     # pylint: enable=protected-access
     return typing.cast(Functor, other)
 
+  def _init_kwargs(self) -> Dict[str, Any]:
+    """Returns the constructor arguments that re-create this functor (pickle)."""
+    kwargs = super()._init_kwargs()
+    # Arguments that were not specified hold their default values: they are
+    # left out, so they remain unspecified in the re-created functor.
+    for name in self._sym_attributes.sym_keys():
+      if name not in self._specified_args:
+        kwargs.pop(name, None)
+    kwargs['override_args'] = self._override_args
+    kwargs['ignore_extra_args'] = self._ignore_extra_args
+    return kwargs
+
   def _on_change(self, field_updates: Dict[utils.KeyPath, base.FieldUpdate]):
     """Custom handling field change to update bound args."""
     for relative_path, update in field_updates.items():
